@@ -74,7 +74,7 @@ def run_tlc(module, cfg, env=None, workers=16, simulate=None, depth=None, timeou
             with open(os.path.join(d, name), mode) as fh:
                 fh.write(text)
         gc = ["-XX:+UseParallelGC", "-Xms2g", "-Xmx24g"] if big else ["-XX:+UseSerialGC", "-Xmx8g"]
-        cmd = ["java"] + gc + ["-Xss64m", "-cp", JAR, "tlc2.TLC",
+        cmd = ["java"] + gc + ["-Xss64m", "-Djava.io.tmpdir=" + d, "-cp", JAR, "tlc2.TLC",
                "-workers", str(workers), "-metadir", os.path.join(d, "meta"), "-noGenerateSpecTE",
                "-config", module + ".cfg"]
         if simulate:
@@ -153,8 +153,12 @@ def _parse(res):
 
 
 def sany(module):
-    p = subprocess.run(["java", "-cp", JAR, "tla2sany.SANY", module + ".tla"], cwd=SPEC_DIR,
-                       stdout=subprocess.PIPE, stderr=subprocess.STDOUT, text=True)
+    d = scratch_dir("sany")
+    try:
+        p = subprocess.run(["java", "-Djava.io.tmpdir=" + d, "-cp", JAR, "tla2sany.SANY", module + ".tla"], cwd=SPEC_DIR,
+                           stdout=subprocess.PIPE, stderr=subprocess.STDOUT, text=True)
+    finally:
+        shutil.rmtree(d, ignore_errors=True)
     ok = p.returncode == 0 and "Semantic errors" not in p.stdout and "***Parse Error***" not in p.stdout \
         and "Fatal errors" not in p.stdout and "Could not find module" not in p.stdout
     return ok, p.stdout
